@@ -29,15 +29,16 @@ PROPS["C07"] = dict(
     modes=[dict(name="committees"), dict(name="c07chain")],
     level="proof",
     trusted_base=TB_COMMON + [
-        "hand model lean/Zrnt/Beacon/Committees.lean of shuffling.go / proposers.go / sync_committee.go / randao.go / epochs_context.go (NewShufflingEpoch slicing, ComputeProposerIndex with its 1000x32 cut-off, ComputeSyncCommitteeIndices with its cached hash, GetSeed, the three-epoch lookups), tied on every run by correspondence with a real EpochsContext built over synthetic phase0/altair BeaconState views (mode committees)",
+        "hand model lean/Zrnt/Beacon/Committees.lean of shuffling.go / proposers.go / sync_committee.go / randao.go / epochs_context.go (NewShufflingEpoch slicing, ComputeProposerIndex with its 1000x32 cut-off, ComputeSyncCommitteeIndices with its cached hash, GetSeed, the three-epoch lookups), tied on every run by correspondence with a real EpochsContext built over synthetic phase0/altair BeaconState views (mode committees) and with the LIVE EpochsContext of real chains crossing all five forks (mode c07chain, chain generator go/internal/chain: real state transition, real BLS)",
+        "history rule for the stored sync committees used by mode c07chain (lean/Zrnt/Beacon/CommitteesChain.lean): none before altair; both = get_next_sync_committee(upgraded state) at the altair upgrade / altair genesis; rotated and re-sampled at the first slot of an epoch divisible by EPOCHS_PER_SYNC_COMMITTEE_PERIOD; unchanged otherwise; evaluated on the post-block state (sound because MIN_SEED_LOOKAHEAD = 1 and MAX_SEED_LOOKAHEAD >= 1 in every generated configuration: block operations change neither the active set of the sampled epoch nor effective balances nor the seed mix)",
         "go2lean translation of CommitteeCount (regenerated on every run; the model calls the regenerated function; also validated differentially by mode c19)",
         "transcriptions of get_active_validator_indices, get_seed, get_committee_count_per_slot, compute_committee, get_beacon_committee, compute_proposer_index, get_beacon_proposer_index, get_next_sync_committee_indices in lean/Zrnt/Beacon/Committees.lean (namespace Spec) over compute_shuffled_index of lean/Zrnt/Shuffle/Spec.lean — the oracle of the correspondence run",
         "the C06 results (list shuffling = per-index spec function) which committee_eq_spec and committees_partition use",
         "Lean transcription of SHA-256 for the correspondence run only; every theorem is parametric in the hash",
     ],
     manifest=dict(
-        level_text="Lean theorems, for every hash function, registry, randao history and configuration, about a code-shaped model of the committee/proposer/sync-committee code: the committees of an epoch are consecutive slices that tile the un-shuffled active list, so they partition the active validator set (each active validator in exactly one committee), sizes are floor/ceil of n/c, the count is the spec formula (proved about the function regenerated from the Go source), each committee equals the spec's get_beacon_committee, seeds equal get_seed, proposers and sync-committee indices equal the spec's whenever the implementation returns (the 32000-candidate cut-off of ComputeProposerIndex is a stated divergence). The model is tied to the Go code by a differential run of a real EpochsContext over synthetic phase0/altair states (registries 0..600, activation/exit patterns incl. none active, balances 0..max, minimal/custom/mainnet constants) against the literal spec functions",
-        level_note="trusted: Lean kernel, hand model (tied by correspondence), go2lean for CommitteeCount, spec transcriptions; proposer/sync theorems are _partial: equality whenever the implementation returns / per loop iteration, termination of the unbounded sampling loops is not proved",
+        level_text="Lean theorems, for every hash function, registry, randao history and configuration, about a code-shaped model of the committee/proposer/sync-committee code: the committees of an epoch are consecutive slices that tile the un-shuffled active list, so they partition the active validator set (each active validator in exactly one committee), sizes are floor/ceil of n/c, the count is the spec formula (proved about the function regenerated from the Go source), each committee equals the spec's get_beacon_committee, seeds equal get_seed, proposers and sync-committee indices equal the spec's whenever the implementation returns (the 32000-candidate cut-off of ComputeProposerIndex is a stated divergence). The model is tied to the Go code by differential runs: (a) a real EpochsContext over synthetic phase0/altair states, (b) the live EpochsContext and the stored sync-committee pubkeys after every slot of real chains through phase0..deneb (upgrades, sync-committee period boundaries, deposits/exits/slashings), (c) ComputeProposerIndex / ComputeSyncCommitteeIndices called directly under installed hash functions that make acceptance rare or impossible (the 32000-candidate cut-off is reached on the real code). Synthetic part: real EpochsContext over synthetic phase0/altair states (registries 0..600, activation/exit patterns incl. none active, balances 0..max, minimal/custom/mainnet constants) against the literal spec functions",
+        level_note="trusted: Lean kernel, hand model (tied by correspondence), go2lean for CommitteeCount, spec transcriptions; proposer/sync theorems: full equality with termination under HasMaxBalance (some active validator at MAX_EFFECTIVE_BALANCE; proposer: at most 32000 active validators); without it the _partial forms (equality whenever the implementation returns / per loop iteration)",
         technique="Lean 4 proof over hand-written code-shaped model + regenerated CommitteeCount + Go/Lean differential correspondence against literal spec functions",
         design_ref="DESIGN.md 5/C07", engine="lean"),
     assumptions=[
@@ -45,6 +46,5 @@ PROPS["C07"] = dict(
         "configuration: SLOTS_PER_EPOCH, TARGET_COMMITTEE_SIZE non-zero, constants fit uint64, SHUFFLE_ROUND_COUNT <= 255",
         "registry size <= 2^40 (VALIDATOR_REGISTRY_LIMIT; the spec's shuffling function is undefined beyond), effective_balance*255, n*committee_count and epoch+EPOCHS_PER_HISTORICAL_VECTOR below 2^64 (the model uses unbounded naturals there)",
         "states reachable by the protocol have at least one active validator in the current epoch; with none, NewEpochsContext returns an error and no assignment is reported (spec column 'any' for committee queries, 'err' for proposers)",
-        "the sync-committee members stored in an altair state (pubkeys) are compared with the context's indices by C08, not here; here ComputeSyncCommitteeIndices is compared with get_next_sync_committee_indices",
     ],
 )
